@@ -230,7 +230,9 @@ pub fn mon_dec(slots: usize, pdu_size: usize, bufs: &[usize], table: MandTable, 
     for l in bufs {
         let _ = mem.provision_storage(vec![0u8; *l].into_boxed_slice());
     }
-    Decapsulator::new(MonMem::wrap(mem), crc, TableMgr::new(table))
+    let mut mm = MonMem::wrap(mem);
+    mm.slots = slots;
+    Decapsulator::new(mm, crc, TableMgr::new(table))
 }
 
 /// Give a delivered buffer back (ignore a full free list).
